@@ -370,6 +370,10 @@ def check_property(pid, tier, seed):
     for r in results_mc:
         if r["error"]:
             tool_errors.append("TLC %s: %s" % (r["cfg"], str(r["error"])[-800:]))
+        if r["job"].get("expect_violation") and not r["violated"] and not r["error"]:
+            # a configuration of the model that transcribes a known-bad variant of the code must be refuted:
+            # otherwise the laws have lost their teeth
+            tool_errors.append("TLC %s: the known-bad variant is no longer refuted" % r["cfg"])
         if r["violated"] and not r["job"].get("expect_violation"):
             # a counterexample in the model alone is not a verdict about the code (DESIGN section 5):
             # report as a tool-level problem of the model unless replayed
